@@ -2,7 +2,7 @@
 import itertools, re
 import z3
 from .. import run as R, clienttable as T, mapmodels as MM, listmodels as LM, prov as P, models as M
-from ..sym import Executor, Node, Ptr, Opaque, to_term, OBJ
+from ..sym import Executor, Node, Ptr, Opaque, to_term, OBJ, Fork
 from .C18 import Drv, classify
 from .C03 import _prestates
 
@@ -256,6 +256,118 @@ def _array_branch(core, k):
     return b, ctx, viol_src, viol_skip, reach, bad
 
 
+def _close_reason(core):
+    """Subscription::close_reason: lagged => Lagged (whether or not the stream was already polled to its end); otherwise ConnectionClosed once closed; else None"""
+    b = R.find_body(core, r"^fn client::<impl at core/src/client/mod\.rs:[\d: ]+>::close_reason\(_1: &client::Subscription<Notif>\)")
+    lagged = z3.Bool("rx.has_lagged")
+    fi_closed = R.field_index("core/src/client/mod.rs::Subscription", "is_closed")
+    closed = z3.Bool(f"arg1.*.{fi_closed}")
+    reasons = R.source_tables()["enums"]["SubscriptionCloseReason"]
+    ctx = P.make_ctx(core, extra_models=[(r"^SubscriptionLagged::has_lagged$", lambda ex, st, c, a, d, s: lagged)] + list(M.TRACING_MODELS))
+    ctx.inline = [M.crate_inliner(core)]
+    ex = Executor(ctx)
+    ps = ex.run(b)
+    bad = [(p.kind, p.detail) for p in ps if p.kind != "return"]
+    viol, reach = [], {"lagged": [], "closed": [], "open": []}
+    for p in ps:
+        if p.kind != "return":
+            continue
+        pc = p.cond()
+        d = z3.simplify(ex.discr_of(p.ret))
+        if not z3.is_bv_value(d):
+            bad.append(("unsupported", "Option discriminant"))
+            continue
+        if d.as_long() == 0:
+            reach["open"].append(z3.And(pc, z3.Not(lagged), z3.Not(closed)))
+            viol.append(z3.And(pc, z3.Or(lagged, closed)))
+        else:
+            r = ex.read_node(p.ret.kids[("Some", 0)])
+            rd = z3.simplify(ex.discr_of(r)) if isinstance(r, Node) else None
+            if rd is None or not z3.is_bv_value(rd):
+                bad.append(("unsupported", "reason discriminant"))
+                continue
+            which = reasons[rd.as_long()]
+            if which == "Lagged":
+                reach["lagged"].append(z3.And(pc, lagged))
+                viol.append(z3.And(pc, z3.Not(lagged)))
+            else:
+                reach["closed"].append(z3.And(pc, closed, z3.Not(lagged)))
+                viol.append(z3.And(pc, z3.Or(lagged, z3.Not(closed))))
+    return b, viol, reach, bad
+
+
+def _explicit_unsubscribe(core):
+    """Subscription::unsubscribe(): the close message (naming this subscription) is handed to the background task by awaiting queue capacity - it cannot be
+    lost because the queue happens to be full - and only then the stream is drained"""
+    b = R.find_body(core, r"^fn client::<impl at core/src/client/mod\.rs:[\d: ]+>::unsubscribe::\{closure#0\}\(_1: Pin<&mut \{async fn body of client::Subscription<Notif>::unsubscribe\(\)\}>")
+    sent = z3.Bool("queue_send.ready")
+
+    def m_poll(ex, st, callee, args, dty, site):
+        if "Sender<FrontToBack>::send()" in callee:
+            return Fork([(sent, lambda ex_, st_, tr: ex_.mk_variant("Poll", 0, "Ready", ex_.mk_variant("Result", 0, "Ok", MM.UNIT))), (z3.Not(sent), lambda ex_, st_, tr: ex_.mk_variant("Poll", 1, "Pending"))])
+        if "Next<'_, SubscriptionReceiver>" in callee:
+            return ex.mk_variant("Poll", 0, "Ready", ex.mk_variant("Option", 0, "None"))
+        return NotImplemented
+    models = [(r"as (futures_util::|std::future::)?Future>::poll$", m_poll), (r"^tokio::sync::mpsc::Sender::<FrontToBack>::try_send$", T.m_try_send)] + list(M.TRACING_MODELS)
+    ctx = P.make_ctx(core, extra_models=models, max_paths=2000)
+    ctx.inline = [M.crate_inliner(core)]
+    ex = Executor(ctx)
+    paths = ex.run_coroutine(b)
+    bad = [(p.kind, p.detail) for p in paths if p.kind in ("unsupported", "limit", "unwound")]
+    viol, reach = [], []
+    for p in paths:
+        if p.kind != "return" or (getattr(p, "state", None) or 0) != 0:
+            continue
+        evs = [e for e in p.events if e.kind == "call"]
+        awaited = [e for e in evs if e.callee == "tokio::sync::mpsc::Sender::<FrontToBack>::send"]
+        tried = [e for e in evs if e.callee == "tokio::sync::mpsc::Sender::<FrontToBack>::try_send"]
+        pc = p.cond()
+        reach.append(pc)
+        ok = len(awaited) == 1 and not tried
+        if ok:
+            msg = MM.value_of(ex, awaited[0].args[1])
+            txt = _deep(ex, msg)
+            ok = "kind" in txt or re.search(r"arg1\.0\.\*\.\d+", txt) is not None
+        if not ok:
+            viol.append(pc)
+    return b, viol, reach, bad
+
+
+def _deep(ex, v, depth=0):
+    v = MM.value_of(ex, v)
+    if isinstance(v, Node):
+        return (v.name or "") + " " + " ".join(_deep(ex, k, depth + 1) for kk, k in v.kids.items() if depth < 6 and not (isinstance(kk, tuple) and kk[0] == "name"))
+    return str(to_term(v))
+
+
+def array_obligations(core, ks, skip_scenario="c05_array_vs_single"):
+    """(also part of C03: responses may share an array frame with notifications; none of them may be skipped)"""
+    out = []
+    for k in ks:
+        b, ctx, viol_src, viol_skip, reach, bad = _array_branch(core, k)
+        common = dict(bodies=[b.name], extra={"models": ["serde_json parsers are uninterpreted: each may accept or reject independently (solver-chosen)",
+                                                          "from_slice::<Vec<&RawValue>> yields the k elements; process_* handlers are recorded calls here"]})
+        if bad or not reach:
+            out.append(R.Result(engine="mirsym", name=f"array:{k}-elements", kind="provenance", status="unsupported" if bad else "vacuous", detail=str(bad[:1])[:300], bodies=[b.name]))
+            continue
+        srcs = sorted({c for _, c in viol_src})
+        r = R.decide(f"array:{k}-elements:element-parsed-from-itself", "provenance", z3.Or(*[pc for pc, _ in viol_src]) if viol_src else z3.BoolVal(False), [z3.Or(*reach)],
+                     desc="inside an array every per-element parser (response / subscription notification / close notification / method notification) is applied to that element's own text",
+                     bounds=f"arrays of {k} element(s); every accept/reject outcome of every parser", keydetail="", **common)
+        if r["status"] == "violated":
+            which = "SubscriptionPayloadError" if any("SubscriptionPayloadError" in c for c in srcs) else "other"
+            r["key"] = f"mirsym:c05:array-element-parser-source:{which}"
+            r["model"] = {"parsers_fed_with_whole_message": srcs}
+            r["replay"] = {"scenario": "c05_close_in_array", "args": {}}
+        out.append(r)
+        r2 = R.decide(f"array:{k}-elements:none-skipped", "order", z3.Or(*viol_skip) if viol_skip else z3.BoolVal(False), [z3.Or(*reach)],
+                      desc="when the array is accepted, each of its elements was handed to exactly one handler (no element is skipped, whatever the others were)",
+                      bounds=f"arrays of {k} element(s); every classification of every element", keydetail="element-skipped",
+                      replay=dict(scenario=skip_scenario, vars={}, fixed={}, region=z3.BoolVal(True)), **common)
+        out.append(r2)
+    return out
+
+
 def obligations(tier, seed):
     core = R.bodies("core")
     out = []
@@ -298,32 +410,28 @@ def obligations(tier, seed):
                             desc="closing an active subscription builds one unsubscribe request, under the reserved request id, whose params are exactly that subscription id; "
                                  "asking again for the same subscription builds nothing", bounds="any pairwise-different u64 request ids, arbitrary subscription id",
                             keydetail="unsubscribe-once", **common))
-    for k in ((1, 2) if tier == "quick" else (1, 2, 3)):
-        b, ctx, viol_src, viol_skip, reach, bad = _array_branch(core, k)
-        common = dict(bodies=[b.name], extra={"models": ["serde_json parsers are uninterpreted: each may accept or reject independently (solver-chosen)",
-                                                          "from_slice::<Vec<&RawValue>> yields the k elements; process_* handlers are recorded calls here"]})
-        if bad or not reach:
-            out.append(R.Result(engine="mirsym", name=f"array:{k}-elements", kind="provenance", status="unsupported" if bad else "vacuous", detail=str(bad[:1])[:300], bodies=[b.name]))
-            continue
-        srcs = sorted({c for _, c in viol_src})
-        r = R.decide(f"array:{k}-elements:element-parsed-from-itself", "provenance", z3.Or(*[pc for pc, _ in viol_src]) if viol_src else z3.BoolVal(False), [z3.Or(*reach)],
-                     desc="inside an array every per-element parser (response / subscription notification / close notification / method notification) is applied to that element's own text",
-                     bounds=f"arrays of {k} element(s); every accept/reject outcome of every parser", keydetail="", **common)
-        if r["status"] == "violated":
-            which = "SubscriptionPayloadError" if any("SubscriptionPayloadError" in c for c in srcs) else "other"
-            r["key"] = f"mirsym:c05:array-element-parser-source:{which}"
-            r["model"] = {"parsers_fed_with_whole_message": srcs}
-            r["replay"] = {"scenario": "c05_close_in_array", "args": {}}
-        out.append(r)
-        r2 = R.decide(f"array:{k}-elements:none-skipped", "order", z3.Or(*viol_skip) if viol_skip else z3.BoolVal(False), [z3.Or(*reach)],
-                      desc="when the array is accepted, each of its elements was handed to exactly one handler (no element is skipped, whatever the others were)",
-                      bounds=f"arrays of {k} element(s); every classification of every element", keydetail="element-skipped",
-                      replay=dict(scenario="c05_array_vs_single", vars={}, fixed={}, region=z3.BoolVal(True)), **common)
-        out.append(r2)
+    out += array_obligations(core, (1, 2) if tier == "quick" else (1, 2, 3))
     seen = set()
     for r in out:
         if r.get("status") == "violated" and r.get("key"):
             if r["key"] in seen:
                 r["status"] = "violated-duplicate"
             seen.add(r["key"])
+    b, viol, reach, bad = _close_reason(core)
+    if bad or not all(reach.values()):
+        out.append(R.Result(engine="mirsym", name="kernel:Subscription::close_reason", kind="kernel", status="unsupported" if bad else "vacuous", detail=str(bad[:1] or {k: len(v) for k, v in reach.items()})[:300], bodies=[b.name]))
+    else:
+        out.append(R.decide("kernel:Subscription::close_reason:lagged-wins", "kernel", z3.Or(*viol), [z3.Or(*v) for v in reach.values()], bodies=[b.name],
+                            desc="close_reason(): a subscription that fell behind its buffer is reported as Lagged - before and after the stream was polled to its end; ConnectionClosed only "
+                                 "when it is closed and did not lag; None while open", bounds="has_lagged x is_closed", keydetail="close-reason",
+                            replay=dict(scenario="c05_close_reason", vars={}, fixed={}, region=z3.BoolVal(True))))
+    b, viol, reach, bad = _explicit_unsubscribe(core)
+    if bad or not reach:
+        out.append(R.Result(engine="mirsym", name="order:Subscription::unsubscribe", kind="order", status="unsupported" if bad else "vacuous", detail=str(bad[:1])[:300], bodies=[b.name]))
+    else:
+        q = [v if isinstance(v, z3.ExprRef) else z3.BoolVal(bool(v)) for v in viol]
+        out.append(R.decide("order:Subscription::unsubscribe:awaits-queue-capacity", "order", z3.Or(*q) if q else z3.BoolVal(False), [z3.Or(*reach)], bodies=[b.name],
+                            desc="an explicit unsubscribe hands its close message to the background task with the awaiting send (exactly once), never with try_send: a full request queue delays it, "
+                                 "it cannot drop it", bounds="every path from the start of unsubscribe()", keydetail="explicit-unsubscribe",
+                            replay=dict(scenario="c05_drop_full_queue", vars={}, fixed={"kind": "explicit"}, region=z3.BoolVal(True))))
     return out
